@@ -54,6 +54,8 @@ func checkC18(c *Check) {
 		"strings.TrimSpace": true, "(*net/http.Request).Cookie": true, "(*net/http.Cookie).String": true,
 		"(net/http.Header).Add": true, "(net/http.Header).Set": true, "builtin.len": true, "builtin.append": true,
 		"(net/http.ResponseWriter).Header": true,
+		// never panic for any argument: errors.Is/As on a strconv error, url.ParseQuery (what URL.Query() calls)
+		"errors.Is": true, "errors.As": true, "net/url.ParseQuery": true,
 		// http.SetCookie(w, c): w.Header().Add("Set-Cookie", c.String()) unless the rendering is empty (invalid name)
 		"net/http.SetCookie": true,
 	}
@@ -345,7 +347,20 @@ func checkC18(c *Check) {
 			}
 		})
 		retOK := false
+		swallowed := ""
 		if call != nil {
+			isErrRange := func(v ssa.Value) bool {
+				u, isU := strip(v).(*ssa.UnOp)
+				if !isU || u.Op != token.MUL {
+					return false
+				}
+				g, isG := u.X.(*ssa.Global)
+				return isG && g.Name() == "ErrRange" && g.Pkg != nil && g.Pkg.Pkg.Path() == "strconv"
+			}
+			// strconv's value is the answer also where it reports an error (clamped / ±Inf on ErrRange, zero on
+			// malformed text): once the text was parsed, another value may be returned only where the error is
+			// known not to be a range error
+			notRange := edgesWhere(fn, cBool(vCall("errors.Is", vExtract(1, vIs(call)), isErrRange)), false)
 			allInstrs(fn, func(in ssa.Instruction) {
 				if r, isR := in.(*ssa.Return); isR {
 					rv := strip(r.Results[0])
@@ -354,9 +369,17 @@ func checkC18(c *Check) {
 					}
 					if vExtract(0, vIs(call))(rv) {
 						retOK = true
+						return
+					}
+					if x, _ := (Query{Fn: fn, Cut: notRange}).After(call, isInstr(r)); x != nil {
+						swallowed = p.Pos(r.Pos())
 					}
 				}
 			})
+		}
+		if ok && retOK && swallowed != "" {
+			c.Bad(key, p.FuncPos(fn), t.meth+" parses the text but can return another value than strconv's ("+swallowed+"): an out-of-range number no longer reads as the clamped value / ±Inf that the standard parsing rules give")
+			continue
 		}
 		want := t.fn
 		for _, a := range t.args {
